@@ -148,3 +148,168 @@ def const_value(F, path):
         return F.const(path)["val"]
     except KeyError:
         raise AnchorMissing("const %s not found" % path)
+
+
+# ------------------------------------------------------------------------------------------
+# tokio::select! arm attribution (DESIGN §4 C05)
+# ------------------------------------------------------------------------------------------
+
+def split_generics(ty):
+    """`A<x, B<y,z>, w>` -> ('A', ['x', 'B<y,z>', 'w'])"""
+    i = ty.find("<")
+    if i < 0:
+        return ty, []
+    head = ty[:i]
+    depth = 0
+    args, cur = [], []
+    for c in ty[i:]:
+        if c == "<":
+            depth += 1
+            if depth == 1:
+                continue
+        elif c == ">":
+            depth -= 1
+            if depth == 0:
+                break
+        elif c == "," and depth == 1:
+            args.append("".join(cur).strip())
+            cur = []
+            continue
+        cur.append(c)
+    if cur:
+        args.append("".join(cur).strip())
+    return head, args
+
+
+class Select:
+    def __init__(self, f, bb, local, out_types, arms):
+        self.f = f
+        self.bb = bb              # dispatch switch block
+        self.local = local        # the Out<..> local
+        self.out_types = out_types
+        self.arms = arms          # variant index -> target bb
+
+    def arm_by_output(self, regex):
+        out = []
+        for i, ty in enumerate(self.out_types):
+            if re.search(regex, ty) and i in self.arms:
+                out.append(i)
+        return out
+
+    def region(self, arm):
+        """Blocks of the arm body: dominated by the arm's dispatch target."""
+        tgt = self.arms[arm]
+        dom = self.f.dominators()
+        return {b for b, ds in dom.items() if tgt in ds}
+
+
+def selects(f):
+    """tokio::select! dispatches in a body: switch on the discriminant of a
+    `__tokio_select_util::Out<..>` value; variant `_N` = N-th future of the select."""
+    out = []
+    for b in sorted(f.reachable(0)):
+        t = f.blocks[b]["t"]
+        if t["k"] != "switch":
+            continue
+        l = op_local(t["d"])
+        if l is None:
+            continue
+        base = None
+        for s in f.blocks[b]["s"]:
+            if s["k"] == "a" and s["lhs"]["l"] == l and s["rv"]["k"] == "discr":
+                base = s["rv"]["p"]["l"]
+        if base is None:
+            continue
+        ty = f.locals[base]
+        head, args = split_generics(ty)
+        if not head.endswith("::Out") or "select" not in " ".join(t.get("mac") or []):
+            continue
+        arms = {}
+        for v, tb in t["targets"]:
+            v = int(v)
+            if v < len(args):
+                arms[v] = tb
+        out.append(Select(f, b, base, args, arms))
+    return out
+
+
+# ------------------------------------------------------------------------------------------
+# exact provenance: copy chains
+# ------------------------------------------------------------------------------------------
+
+_TRANSPARENT = ("core::clone::Clone::clone", "core::convert::Into::into", "core::convert::From::from",
+                "core::borrow::Borrow::borrow", "core::ops::deref::Deref::deref",
+                "core::convert::AsRef::as_ref")
+
+
+def copy_sources(f, local, depth=12, transparent=(), stop=()):
+    """Follow `local` backwards through *value-preserving* definitions only (copies, moves,
+    reborrows, derefs, Clone/Into/thin accessors listed in `transparent`).  Returns a set of
+    source descriptions:  ('place', local, (field names..))  |  ('arg', n)  |
+    ('call', callee)  |  ('const', text)  |  ('agg', adt::variant) | ('other', kind).
+    Every definition of every local on the way is followed, so a value that may come from
+    two places yields two sources."""
+    out = set()
+    seen = set()
+    trans = set(_TRANSPARENT) | set(transparent)
+
+    def defs_of(l):
+        ds = []
+        for b, i, s in f.stmts():
+            if s["k"] == "a" and s["lhs"]["l"] == l and not s["lhs"].get("p"):
+                ds.append(("stmt", s["rv"]))
+        for b, t in f.calls():
+            if t["k"] == "call" and t["dest"]["l"] == l and not t["dest"].get("p"):
+                ds.append(("call", t))
+        return ds
+
+    def walk(l, fields, d):
+        key = (l, fields)
+        if key in seen or d > depth:
+            return
+        seen.add(key)
+        if l in stop:
+            out.add(("place", l, fields))
+            return
+        ds = defs_of(l)
+        if not ds:
+            if 1 <= l <= f.argc:
+                out.add(("arg", l, fields))
+            else:
+                out.add(("place", l, fields))
+            return
+        for kind, x in ds:
+            if kind == "call":
+                names = callee_names(x)
+                if any(n in trans for n in names) and x["args"]:
+                    a = x["args"][0]
+                    if a["k"] in ("copy", "move"):
+                        nf = tuple(e[2] for e in a["p"].get("p", []) if e[0] == "f")
+                        walk(a["p"]["l"], nf + fields, d + 1)
+                        continue
+                out.add(("call", names[0] if names else "?"))
+                continue
+            rv = x
+            if rv["k"] in ("use", "cast") and rv["o"]["k"] in ("copy", "move"):
+                p = rv["o"]["p"]
+                nf = tuple(e[2] for e in p.get("p", []) if e[0] == "f")
+                if any(e[0] in ("idx", "ci", "sub") for e in p.get("p", [])):
+                    out.add(("other", "index"))
+                    continue
+                walk(p["l"], nf + fields, d + 1)
+            elif rv["k"] == "ref":
+                p = rv["p"]
+                nf = tuple(e[2] for e in p.get("p", []) if e[0] == "f")
+                walk(p["l"], nf + fields, d + 1)
+            elif rv["k"] in ("use", "cast") and rv["o"]["k"] == "const":
+                out.add(("const", rv["o"].get("def") or rv["o"].get("v") or "?"))
+            elif rv["k"] == "agg":
+                if rv["ak"] == "adt":
+                    out.add(("agg", "%s::%s" % (rv["adt"], rv["variant"])))
+                else:
+                    out.add(("agg", rv["ak"]))
+            else:
+                out.add(("other", rv["k"]))
+
+    walk(local, (), 0)
+    return out
